@@ -5,7 +5,8 @@ import os
 import re
 
 import semgen
-from lib import BIN, JAVA_OPTS_TRACE, SPECS, ToolError, clean_dir, extract_replay, log, read_ndjson, run, seed, tlc, workdir
+from lib import (BIN, JAVA_OPTS_TRACE, SPECS, ToolError, clean_dir, extract_replay, log, read_ndjson, run, seed, tlc, tlc_heap,
+                 worker_threads, workdir)
 
 SPEC = os.path.join(SPECS, "CairoSem")
 PRIME = 0x800000000000011000000000000000000000000000000000000000000000001
@@ -48,7 +49,7 @@ def reference_results(progs, tag):
                 f.write(json.dumps({"id": f"p{p['pid']}a{j}", "prog": p["prog"], "args": a}) + "\n")
                 n += 1
     res = tlc(SPEC, "CairoSemRun", "CairoSemRun.cfg", f"sem_{tag}", workers=1, timeout=3000,
-              env={"PROGS": cases}, java_opts=JAVA_OPTS_TRACE, heap="8g")
+              env={"PROGS": cases}, java_opts=JAVA_OPTS_TRACE, heap=tlc_heap(8))
     if res.errors or res.violated:
         raise ToolError(f"CairoSemRun ({tag}): {res.violated} {res.errors[:3]} (see {res.out_path})")
     out = os.path.join(d, "expected.ndjson")
@@ -72,7 +73,7 @@ def real_results(files, cfgs, tag, gas=20_000_000, with_runs=True):
         for ci, cfg in enumerate(cfgs):
             jobs.append({"id": f"{os.path.basename(path)}@{ci}", "path": path, "cfg": cfg, "gas": gas, "runs": runs})
     jp = os.path.join(d, "jobs.json")
-    json.dump({"threads": 14, "jobs": jobs}, open(jp, "w"))
+    json.dump({"threads": worker_threads(0.6), "jobs": jobs}, open(jp, "w"))
     out = os.path.join(d, "real.ndjson")
     run([os.path.join(BIN, "sem_run"), jp, out], timeout=3000)
     return read_ndjson(out)
